@@ -12,6 +12,8 @@ import GoDebian.Lemmas.Res
 import GoDebian.Lemmas.CodecPara
 import GoDebian.Lemmas.CodecConvert
 import GoDebian.Lemmas.CodecMarshal
+import GoDebian.Lemmas.CodecRecord
+import GoDebian.Lemmas.CodecCustom
 
 namespace GoDebian.Props.C09
 open GoDebian GoDebian.Deb822 GoDebian.Codec GoDebian.Spec.Codec
@@ -83,16 +85,16 @@ theorem C09_omit_required_full_false : ¬ C09_omit_required_full := by
     exact hne hg
 
 /-- Optional fields whose rendering is empty are omitted; required fields are always
-    written; this for every non-anonymous, non-skipped field whose key occurs once in the
-    schema — embedded Paragraph or not (an omitted known field does not come back from
+    written; this for every non-anonymous, non-skipped field whose key occurs once among the
+    schema's known keys — embedded Paragraph or not (an omitted known field does not come back from
     it). -/
 theorem C09_omit_required_partial (s : Schema) (r : List Val) (p : Paragraph)
     (h : convertToParagraph s r = .ok p) (f : FieldDesc) (v : Val) (hf : (f, v) ∈ s.zip r)
     (ha : f.anonymous = false) (hk : f.key ≠ [45]) (data : Bytes)
     (hd : marshalValue 16 f.kind f.delim v = .ok data) :
     (f.key ∈ p.order ↔ (f.required = true ∨ data ≠ [])) ∨
-      2 ≤ (s.map FieldDesc.key).count f.key := by
-  by_cases hu : (s.map FieldDesc.key).count f.key ≤ 1
+      2 ≤ (knownKeys s).count f.key := by
+  by_cases hu : (knownKeys s).count f.key ≤ 1
   · exact Or.inl (Lemmas.Codec.mem_order_convert h hf ha hk hd hu)
   · exact Or.inr (by omega)
 
@@ -102,7 +104,7 @@ theorem C09_omit_required (s : Schema) (r : List Val) (p : Paragraph)
     (f : FieldDesc) (v : Val) (hf : (f, v) ∈ s.zip r) (hk : f.key ≠ [45]) (data : Bytes)
     (hd : marshalValue 16 f.kind f.delim v = .ok data) :
     (f.key ∈ p.order ↔ (f.required = true ∨ data ≠ [])) ∨
-      2 ≤ (s.map FieldDesc.key).count f.key :=
+      2 ≤ (knownKeys s).count f.key :=
   C09_omit_required_partial s r p h f v hf (hnoembed f (Lemmas.Codec.mem_zip_left hf)) hk data hd
 
 /-- A schema with a required and an optional string, an int, a bool, a skipped and an
@@ -155,6 +157,82 @@ example :
     let v16 : Val := (List.range 16).foldl (fun v _ => .list [v]) (.str [120])
     kindDepth k16 = 16 ∧
     convertToParagraph [.mk "L" [76] k16 [] [] false false false] [v16] = .error .fuel := by
+  decide +kernel
+
+/-! ### Stage C — the round trip at the paragraph level -/
+
+/-- A record of a flat schema (`flatSchema`: named, non-skipped fields with distinct keys,
+    each a string / int / uint / bool / custom value or a list of such; `multiline` only on
+    lists whose strip set has the newline) whose values match their kinds (`wfRec`) is
+    decoded from its own paragraph to the same record, the Go zero value identified with
+    `.zero` (`SameRec`). -/
+theorem C09_roundtrip_paragraph (s : Schema) (r : List Val) (p : Paragraph)
+    (hs : flatSchema s = true) (hr : wfRec s r) (h : convertToParagraph s r = .ok p) :
+    ∃ r', decodeStruct p s [] = .ok r' ∧ SameRec s r r' :=
+  Lemmas.Codec.roundtrip_paragraph hs hr h
+
+/-- the `lawful` hypothesis on custom values is discharged for versions by C03 … -/
+theorem C09_lawful_version (s : Bytes) (v : Version.Version) (h : Version.parse s = .ok v)
+    (mustDecode : Bool) : wfCustom mustDecode "Version" (.version v) :=
+  Lemmas.Codec.wfCustom_version h mustDecode
+
+/-- … and for architectures by C05 -/
+theorem C09_lawful_arch (n : Bytes) (a : Dep.Arch) (h : Dep.parseArch n = .ok a)
+    (mustDecode : Bool) : wfCustom mustDecode "Arch" (.arch a) :=
+  Lemmas.Codec.wfCustom_arch h mustDecode
+
+/-- A flat schema with every kind: required string, required version, optional architecture,
+    int, uint, bool, a ", "-separated list with a strip set, a list with the default
+    delimiter, a multi-line newline-separated list of ints, an optional string. -/
+def flatSample : Schema :=
+  let B := Bytes.ofString
+  [.mk "Package" (B "Package") .str [] [] true false false,
+   .mk "Version" (B "Version") (.custom "Version") [] [] true false false,
+   .mk "Arch" (B "Architecture") (.custom "Arch") [] [] false false false,
+   .mk "Size" (B "Size") .int [] [] false false false,
+   .mk "Count" (B "Count") .uint [] [] false false false,
+   .mk "Essential" (B "Essential") .bool [] [] false false false,
+   .mk "Binaries" (B "Binary") (.slice .str) (B ", ") (B "\n\r\t ") false false false,
+   .mk "Tags" (B "Tag") (.slice .str) [] [] false false false,
+   .mk "Nums" (B "Nums") (.slice .int) [10] (B "\n\r\t ") true true false,
+   .mk "Note" (B "Note") .str [] [] false false false]
+
+/-- … and a record for it: an untouched architecture (rendered "--"), a negative int, list
+    elements with inner blanks and commas-without-blank, an untouched int inside a list, an
+    empty optional string (omitted, comes back as the zero value). -/
+def flatRecord : List Val :=
+  let B := Bytes.ofString
+  [.str (B "hello"), .custom (.version ⟨1, B "2.30", B "10"⟩), .zero, .int (-5), .uint 7,
+   .bool true, .list [.str (B "a b,c"), .str (B "d")], .list [.str (B "x"), .str (B "y,z")],
+   .list [.int 1, .zero], .str []]
+
+example : flatSchema flatSample = true := by decide +kernel
+
+example : wfRec flatSample flatRecord := by
+  refine ⟨trivial, ?_, ?_, (show -(2^63 : Int) ≤ -5 ∧ (-5 : Int) < 2^63 by decide),
+    (show 7 < 2^64 by decide), trivial, ?_, ?_, ?_, trivial, trivial⟩
+  · exact C09_lawful_version (Bytes.ofString "1:2.30-10") _ (by decide +kernel) true
+  · exact ⟨_, rfl, C09_lawful_arch (Bytes.ofString "--") _ (by decide +kernel) false⟩
+  · intro x hx
+    simp only [List.mem_cons, List.not_mem_nil, or_false] at hx
+    rcases hx with rfl | rfl <;> exact ⟨trivial, _, rfl, by decide +kernel⟩
+  · intro x hx
+    simp only [List.mem_cons, List.not_mem_nil, or_false] at hx
+    rcases hx with rfl | rfl <;> exact ⟨trivial, _, rfl, by decide +kernel⟩
+  · intro x hx
+    simp only [List.mem_cons, List.not_mem_nil, or_false] at hx
+    rcases hx with rfl | rfl
+    · exact ⟨(show -(2^63 : Int) ≤ 1 ∧ (1 : Int) < 2^63 by decide), _, rfl, by decide +kernel⟩
+    · exact ⟨trivial, _, rfl, by decide +kernel⟩
+
+example :
+    let B := Bytes.ofString
+    convertToParagraph flatSample flatRecord =
+      .ok ⟨[B "Package", B "Version", B "Architecture", B "Size", B "Count", B "Essential",
+            B "Binary", B "Tag", B "Nums"],
+        [(B "Package", B "hello"), (B "Version", B "1:2.30-10"), (B "Architecture", B "--"),
+         (B "Size", B "-5"), (B "Count", B "7"), (B "Essential", B "yes"),
+         (B "Binary", B "a b,c, d"), (B "Tag", B "x y,z"), (B "Nums", B "\n1\n0")]⟩ := by
   decide +kernel
 
 end GoDebian.Props.C09
